@@ -487,6 +487,55 @@ def _w(b):
     return lambda: workers_case(b)
 
 
+# ----------------------------------------------------------------------------- hand-back at the message limit (several queues)
+
+
+def run_limit_handback(case: dict) -> Outcome:
+    """A worker over several queues reaches its message limit while messages of other queues are in its hands: they are handed back.
+    Afterwards every message it did not finish is in its queue exactly once - a second entry is a second delivery waiting to happen
+    (two consumers would hold it at a time).  Workload generator shared with C03 `limit-multi`."""
+    import signal
+
+    out = Outcome()
+    info: dict = {}
+
+    def hook(trace, worker):
+        loop = trace.env.loop
+
+        def fire():
+            info["sent"] = loop.send_signal(signal.SIGTERM)
+            if info["sent"]:
+                trace.stop_requested_at = loop.time()
+                trace.extra["stop_injected"] = True
+
+        if case.get("signal_at") is not None:
+            loop.call_later(case["signal_at"], fire)
+
+    try:
+        tr = scenario.run_case({k: v for k, v in case.items() if k != "signal_at"}, settled=lambda t: False, hook=hook)
+    except (vclock.StepLimit, vclock.Deadlock) as e:
+        out.inconclusive = True
+        out.info["watchdog"] = str(e)
+        return out
+    handed_back = [e for e in tr.spy.events if e.op == "reject"]
+    for j in case["jobs"]:
+        places = tr.final.get(j["id"], [])
+        live = [p for p in places if p.kind in ("waiting", "delayed", "held")]
+        if len(live) > 1:
+            out.v("duplicated", f"message {j['id']} is in {[p.short() for p in places]} after the worker returned (hand-backs: "
+                  f"{[(getattr(e.key, 'id_', None), e.caller) for e in handed_back][:6]}): it will be handed out twice", broker=case["broker"])
+            break
+    out.nontrivial = not tr.horizon_hit and bool(handed_back)
+    out.cls("broker-" + case["broker"], "hand-back" if handed_back else "no-hand-back")
+    return out
+
+
+def _limit_handback_case():
+    from harness.checks import c03
+
+    return c03.limit_multi_case()
+
+
 CHECK = Check(
     pid="C14",
     level="exploration",
@@ -511,6 +560,7 @@ CHECK = Check(
         SubCheck("workers-stop-mem", lambda: workers_stop_case("mem"), run_workers_stop, quick=25, thorough=800),
         SubCheck("workers-stop-redis", lambda: workers_stop_case("redis"), run_workers_stop, quick=15, thorough=500),
         SubCheck("workers-stop-amqp", lambda: workers_stop_case("amqp"), run_workers_stop, quick=15, thorough=500),
+        SubCheck("limit-handback", _limit_handback_case, run_limit_handback, quick=40, thorough=1500),
         SubCheck("workers-mem", _w("mem"), run_workers, quick=8, thorough=300),
         SubCheck("workers-redis", _w("redis"), run_workers, quick=15, thorough=500),
         SubCheck("workers-amqp", _w("amqp"), run_workers, quick=15, thorough=500),
